@@ -936,12 +936,17 @@ fn real_main() {
     // ---- random programs: every kind x capacity x pre-existing length
     let per = ((if th { 240 } else { 20 }) * scale + 99) / 100;
     let per_slice = ((if th { 3600 } else { 300 }) * scale + 99) / 100;
+    // `--stride N` keeps every Nth (store, capacity, length) configuration (Miri runs only)
+    let stride = opt("--stride", 1).max(1);
+    let mut cfg_i = 0usize;
     for &kind in &[Kind::Vec, Kind::ArrayVec, Kind::Slice, Kind::SliceRef] {
         for total in 0..=40usize {
             if kind == Kind::ArrayVec && !ARRAYVEC_CAPS.contains(&total) { continue; }
             match kind {
                 Kind::Vec | Kind::ArrayVec => {
                     for len in 0..=total {
+                        cfg_i += 1;
+                        if cfg_i % stride != 0 { continue; }
                         for i in 0..per {
                             let c = make_case(&mut r, kind, total, len, i % 3 == 2);
                             do_case(&mut o, &c);
@@ -949,6 +954,8 @@ fn real_main() {
                     }
                 }
                 _ => {
+                    cfg_i += 1;
+                    if cfg_i % stride != 0 { continue; }
                     for i in 0..per_slice {
                         let c = make_case(&mut r, kind, total, 0, i % 3 == 2);
                         do_case(&mut o, &c);
